@@ -44,12 +44,13 @@ type spec struct {
 	ClientAuth bool
 	LeafSet    string // Server | Untrusted | Expired | WrongName
 	SkipVerify bool
-	SHRewrite  int    // 0 none, otherwise extension type to append to the ServerHello
+	SHRewrite  int // 0 none, otherwise extension type to append to the ServerHello
 	SHRewData  []byte
-	Seg        int  // 0 none, otherwise max read chunk
-	NoBuffer   bool // DontBufferHandshakes
-	ForceTkt   bool // ForceSessionTicketExt
-	NoTickets  bool // server SessionTicketsDisabled
+	SKXFlip    bool     // flip one bit in the last byte of the ServerKeyExchange (its signature) in flight
+	Seg        int      // 0 none, otherwise max read chunk
+	NoBuffer   bool     // DontBufferHandshakes
+	ForceTkt   bool     // ForceSessionTicketExt
+	NoTickets  bool     // server SessionTicketsDisabled
 	SigAlgs    []uint16 // external / fingerprint mode
 	ExtEMS     bool
 	ExtHB      bool
@@ -60,9 +61,9 @@ type spec struct {
 }
 
 func (s spec) String() string {
-	return fmt.Sprintf("%s/%04x/%s/%04x/c%d mode=%s cmax=%04x hrr=%v alpn=%d sct=%d ocsp=%d resume=%v cauth=%v leaf=%s skip=%v shrw=%d seg=%d nobuf=%v ftkt=%v notkt=%v sigalgs=%04x ems=%v hb=%v unk=%v",
+	return fmt.Sprintf("%s/%04x/%s/%04x/c%d mode=%s cmax=%04x hrr=%v alpn=%d sct=%d ocsp=%d resume=%v cauth=%v leaf=%s skip=%v shrw=%d skxflip=%v seg=%d nobuf=%v ftkt=%v notkt=%v sigalgs=%04x ems=%v hb=%v unk=%v",
 		s.Cell.Peer, s.Cell.Vers, s.Cell.Kind, s.Cell.Suite, s.Cell.Curve, s.Mode, s.ClientMax, s.HRR, s.ALPN, s.SCT, s.OCSP, s.Resume, s.ClientAuth,
-		s.LeafSet, s.SkipVerify, s.SHRewrite, s.Seg, s.NoBuffer, s.ForceTkt, s.NoTickets, s.SigAlgs, s.ExtEMS, s.ExtHB, s.ExtUnknown)
+		s.LeafSet, s.SkipVerify, s.SHRewrite, s.SKXFlip, s.Seg, s.NoBuffer, s.ForceTkt, s.NoTickets, s.SigAlgs, s.ExtEMS, s.ExtHB, s.ExtUnknown)
 }
 
 var allCurves = []uint16{23, 24, 25, 29}
@@ -98,7 +99,15 @@ func buildCells() []cell {
 							out = append(out, cell{peer, v, kind, s.ID, cv})
 						}
 					} else {
-						out = append(out, cell{peer, v, kind, s.ID, 0})
+						// cells without a curve dimension are listed several times so that the RSA and DHE key
+						// exchanges get a share of the cases comparable to one ECDHE suite
+						w := 2
+						if s.Kx == "dhe" {
+							w = 4
+						}
+						for i := 0; i < w; i++ {
+							out = append(out, cell{peer, v, kind, s.ID, 0})
+						}
 					}
 				}
 			}
@@ -201,16 +210,14 @@ func makeSpec(c cell, idx int, r *rand.Rand) spec {
 		switch s.SHRewrite {
 		case 23:
 		case 15:
-			if p(30) {
-				s.SHRewData = []byte{1}
-			}
+			s.SHRewData = []byte{1}
 		default:
-			// zcrypto's ServerHello parser rejects an unknown extension with a non-empty body, which ends the
-			// handshake at the ServerHello; most rewrites therefore use an empty body
-			if p(30) {
-				s.SHRewData = randBytes(r, 1+r.IntN(24))
-			}
+			s.SHRewData = randBytes(r, r.IntN(24))
 		}
+	}
+	if c.Vers < 0x0304 && s.SHRewrite == 0 && p(8) {
+		s.SKXFlip = true
+		s.SkipVerify = s.SkipVerify || p(70)
 	}
 	if p(10) {
 		s.Seg = pick(r, []int{1, 3, 17, 64, 500})
@@ -290,11 +297,12 @@ type caseRun struct {
 }
 
 type shFilter struct {
-	typ  int
-	data []byte
-	pend []byte
-	done bool
-	hit  bool
+	flipSKX bool // instead of rewriting the ServerHello, flip the last byte of the first ServerKeyExchange record
+	typ     int
+	data    []byte
+	pend    []byte
+	done    bool
+	hit     bool
 }
 
 // Write reassembles records and appends one extension to the first ServerHello that is the first
@@ -312,7 +320,11 @@ func (f *shFilter) Write(p []byte) [][]byte {
 		}
 		rec := append([]byte(nil), f.pend[:5+n]...)
 		f.pend = f.pend[5+n:]
-		if !f.done && rec[0] == recHandshake && n >= 4 && rec[5] == hsServerHello {
+		if !f.done && f.flipSKX && rec[0] == recHandshake && n >= 8 && rec[5] == hsServerKeyExchange {
+			rec[len(rec)-1] ^= 0x04
+			f.hit, f.done = true, true
+		}
+		if !f.done && !f.flipSKX && rec[0] == recHandshake && n >= 4 && rec[5] == hsServerHello {
 			ml := int(rec[6])<<16 | int(rec[7])<<8 | int(rec[8])
 			if 4+ml <= n {
 				body := rec[9 : 9+ml]
@@ -621,6 +633,9 @@ func runCase(s spec) *caseRun {
 		var flt *shFilter
 		if s.SHRewrite != 0 && (round == rounds-1) {
 			flt = &shFilter{typ: s.SHRewrite, data: s.SHRewData}
+			opt.BA.Filter = flt
+		} else if s.SKXFlip && round == 0 {
+			flt = &shFilter{flipSKX: true}
 			opt.BA.Filter = flt
 		}
 		if s.Seg > 0 {
